@@ -432,7 +432,7 @@ func (p *c13) RunCase(i int) *core.CaseResult {
 
 func (p *c13) Meta() core.Meta {
 	return core.Meta{
-		Rule: "one case per harness: 1 query alone (internal parallelism), or every unordered pair (thorough: also triples over a 7-query subset) of 26 queries, plus 8 single-only harnesses (ASYNC in a nested FROM with several inner arrays, ASYNC / SPINASYNC readers and writers of the variable store next to SETVAR / GETVAR, ASYNC inside a row-scoped subquery and inside a CTE read twice) (filter, projection, fresh path selector, group-by, joins incl. PARALLEL hash and nested, ASYNC, SPINASYNC, CTE, IN-subquery, EXISTS, ORDER BY+DISTINCT, SETVAR/GETVAR, UNION and JOIN USING with the same text in every thread, GETVAR / SETVAR built without any option, one statement text with and without PostgresEscapingDialect) x {separate documents, one shared document} x {cold selector cache, warm cache}; each case = stateless exploration of every interleaving with <= 2 (thorough 3) preemptions at sync-operation granularity of the real engine under the -race build; oracle per schedule: no new race report, no deadlock / goroutine panic (scheduler), every thread's result equals its solo result. non-trivial = more than one schedule executed",
+		Rule: "one case per harness: 1 query alone (internal parallelism), or every unordered pair (thorough: also triples over a 7-query subset) of 26 queries, plus 8 single-only harnesses (ASYNC in a nested FROM with several inner arrays, ASYNC / SPINASYNC readers and writers of the variable store next to SETVAR / GETVAR, ASYNC inside a row-scoped subquery and inside a CTE read twice) (filter, projection, fresh path selector, group-by, joins incl. PARALLEL hash and nested, ASYNC, SPINASYNC, CTE, IN-subquery, EXISTS, ORDER BY+DISTINCT, SETVAR/GETVAR, UNION and JOIN USING with the same text in every thread, GETVAR / SETVAR built without any option, one statement text with and without PostgresEscapingDialect) x {separate documents, one shared document} x {cold selector cache, warm cache}; each case = stateless exploration of every interleaving with <= 2 (thorough 3) preemptions at sync-operation granularity of the real engine under the -race build; oracle per schedule: no new race report, no deadlock / goroutine panic (scheduler), every thread's result equals its solo result. non-trivial = more than one schedule executed; single-query harnesses for PARALLEL joins whose match panics for every one of three keys and for an ASYNC call awaited explicitly; DISTINCT / UNION kinds over whole-row duplicates",
 		Assumptions: []string{
 			"scheduling points at every Mutex/RWMutex/WaitGroup operation, go statement, thread exit and harness yield; unsynchronised accesses are covered by the happens-before race monitor on each explored schedule (DRF-SC)",
 			"the race detector reports each distinct race (stack pair) once per worker process; a report is attributed to the first case of that worker that exhibits it",
